@@ -68,13 +68,30 @@ static Chain chainOf(const Built &b, const J &t)
 }
 
 // apply one mutation to a built model; returns false if it could not be applied
-static bool mutate(Built &b, const J &mut)
+bool mutate(Built &b, const J &mut)
 {
     const J &t = mut["t"];
     std::string k = t["k"].str();
     std::string op = mut["op"].str();
     std::string attr = mut["attr"].str();
     std::string val = S(mut["val"]);
+    if (op == "addEquivParentless") {
+        auto v1 = b.varAt[static_cast<size_t>(mut["c1"].num())][static_cast<size_t>(mut["v1"].num())];
+        auto loose = Variable::create("loose");
+        loose->setUnits("dimensionless");
+        b.loose.push_back(loose);
+        return Variable::addEquivalence(v1, loose);
+    }
+    if (op == "setPairId") {
+        auto v1 = b.varAt[static_cast<size_t>(mut["c1"].num())][static_cast<size_t>(mut["v1"].num())];
+        auto v2 = b.varAt[static_cast<size_t>(mut["c2"].num())][static_cast<size_t>(mut["v2"].num())];
+        if (attr == "mapId") {
+            Variable::setEquivalenceMappingId(v1, v2, val);
+        } else {
+            Variable::setEquivalenceConnectionId(v1, v2, val);
+        }
+        return true;
+    }
     if (op == "addEquiv" || op == "removeEquiv") {
         auto v1 = b.varAt[static_cast<size_t>(mut["c1"].num())][static_cast<size_t>(mut["v1"].num())];
         auto v2 = b.varAt[static_cast<size_t>(mut["c2"].num())][static_cast<size_t>(mut["v2"].num())];
@@ -130,6 +147,8 @@ static bool mutate(Built &b, const J &mut)
             var->setInitialValue(val);
         } else if (attr == "iface") {
             var->setInterfaceType(val);
+        } else if (attr == "units" && mut["val"].str() == "none") {
+            var->removeUnits();
         } else if (attr == "units") {
             auto it = b.units.find(mut["val"].str());
             if (it != b.units.end()) {
@@ -143,6 +162,8 @@ static bool mutate(Built &b, const J &mut)
             } else {
                 reset->setOrder(atoi(val.c_str()));
             }
+        } else if (attr == "varOther") { // a variable of another component
+            reset->setVariable(b.varAt[static_cast<size_t>(mut["oc"].num())][0]);
         } else if (attr == "var" || attr == "tvar") {
             size_t ci = static_cast<size_t>(t["c"].num());
             VariablePtr nv = mut["val"].str() == "none" ? nullptr : b.varAt[ci][static_cast<size_t>(atoi(val.c_str()))];
